@@ -428,7 +428,7 @@ func main() {
 			"traversal ends are reconstructed from the recording nodes' log by the C01 matching; a C01 failure is reported as such",
 			"'error wraps the context error' is only demanded when the Status shows missing entries or the context was cancelled before the call (otherwise the cancel may land after Send read ctx.Err())",
 		},
-		QuickBudget:    150 * time.Second,
-		ThoroughBudget: 40 * time.Minute,
+		QuickBudget:    300 * time.Second,
+		ThoroughBudget: 60 * time.Minute,
 	})
 }
